@@ -361,7 +361,19 @@ func runJSONData(c JSONDataCase, cc *kit.Case) {
 	select {
 	case runErr = <-waited:
 	case <-time.After(10 * time.Second):
-		cc.Fail("jsondata/task-never-ends", "the task defined by an accepted JSON pipeline did not end within 10 s after its input was closed (work of milliseconds)\nchanges to the marshalled document: %v\nscript it was marshalled from: %s\ndocument: %s", c.Changes, c.Script, c.Doc)
+		// the signature names the first change made to the document ("$.nodes[5](log).typeOf = stream ..." -> log.typeOf)
+		what := "unchanged"
+		if len(c.Changes) > 0 {
+			what = c.Changes[0]
+			if i := strings.Index(what, "("); i >= 0 {
+				what = what[i+1:]
+			}
+			if i := strings.Index(what, " "); i >= 0 {
+				what = what[:i]
+			}
+			what = strings.Replace(what, ")", "", 1)
+		}
+		cc.Fail("jsondata/task-never-ends/"+what, "the task defined by an accepted JSON pipeline did not end within 10 s after its input was closed (work of milliseconds)\nchanges to the marshalled document: %v\nscript it was marshalled from: %s\ndocument: %s", c.Changes, c.Script, c.Doc)
 		return
 	}
 	if len(env.Sink.Errors()) > 0 {
